@@ -403,6 +403,9 @@ class Interp(object):
 def zeros_of(ty):
     import re
     t = ty.replace("const ", "").replace("celeritas::", "")
+    t = {"SquareMatrixReal3": "Array<Array<double, 3>, 3>", "Real3": "Array<double, 3>",
+         "SquareMatrix<double, 3>": "Array<Array<double, 3>, 3>",
+         "Transformation::Mat3": "Array<Array<double, 3>, 3>", "Mat3": "Array<Array<double, 3>, 3>"}.get(t, t)
     m = re.match(r"^Array<Array<double, (\d+)>, (\d+)>$", t)
     if m:
         return [[Poly() for _ in range(int(m.group(1)))] for _ in range(int(m.group(2)))]
